@@ -62,8 +62,10 @@ func c18worker(arg string) {
 		}
 	case "once":
 		for calls := 1; calls <= 5; calls++ {
-			c18once(c, calls, false)
-			c18once(c, calls, true)
+			for _, zeroFirst := range []bool{false, true} {
+				c18once(c, calls, false, zeroFirst)
+				c18once(c, calls, true, zeroFirst)
+			}
 		}
 	case "retry":
 		for n := -2; n <= 8; n++ {
@@ -148,7 +150,13 @@ func c18before(c *c20ctx, n, calls int) {
 	}, func() any { return fmt.Sprint(runOn, got) })
 }
 
-func c18once(c *c20ctx, calls int, expiring bool) {
+// zeroFirst: the callback's first result is the zero value of its type (a legitimate result: 0, false,
+// nil), later results are distinct non-zero values.
+func c18once(c *c20ctx, calls int, expiring, zeroFirst bool) {
+	base := 100
+	if zeroFirst {
+		base = -1 // results 0, 1, 2, ...
+	}
 	type rec struct {
 		t    int64
 		runs int
@@ -156,7 +164,7 @@ func c18once(c *c20ctx, calls int, expiring bool) {
 	}
 	var recs []rec
 	var runTimes []int64
-	name := fmt.Sprintf("Once(%d calls, expiring-entry=%t)", calls, expiring)
+	name := fmt.Sprintf("Once(%d calls, expiring-entry=%t, first-result-is-zero=%t)", calls, expiring, zeroFirst)
 	c.explore(name, 0, func() {
 		recs = recs[:0]
 		runTimes = runTimes[:0]
@@ -175,7 +183,7 @@ func c18once(c *c20ctx, calls int, expiring bool) {
 			}
 			before := inv
 			t := now()
-			r := gogu.Once[string, int, int](ca, func() int { inv++; runTimes = append(runTimes, now()); return 100 + inv })
+			r := gogu.Once[string, int, int](ca, func() int { inv++; runTimes = append(runTimes, now()); return base + inv })
 			recs = append(recs, rec{t, inv - before, r})
 		}
 	}, func(x *vrt.Exec) (string, string) {
@@ -195,8 +203,8 @@ func c18once(c *c20ctx, calls int, expiring bool) {
 				return fmt.Sprintf("Once/callback-runs-%d-times-on-the-storing-call", r.runs), fmt.Sprintf("call %d at time %d (no live entry) ran the callback %d times, want exactly once", i+1, r.t, r.runs)
 			}
 			liveSince = r.t
-			if r.ret < 100 {
-				return "Once/wrong-result", fmt.Sprintf("call %d returned %d", i+1, r.ret)
+			if r.ret <= base || r.ret > base+calls {
+				return "Once/wrong-result", fmt.Sprintf("call %d returned %d, which no run of the callback produced", i+1, r.ret)
 			}
 			liveVal = r.ret
 		}
